@@ -298,9 +298,7 @@ def three_way(ctx, exes, cases, have_model, label):
             elif m is not None and a != m:
                 ok_ms = False; bad.append((cse, a, b, m, 'momo and the extracted spec disagree'))
             if m is not None and b != m:
-                ok_ss = False
-                if a == b: pass
-                bad.append((cse, a, b, m, 'libstdc++ and the extracted spec disagree (oracle validation)')) if a != b or True else None
+                ok_ss = False; bad.append((cse, a, b, m, 'libstdc++ and the extracted spec disagree (oracle validation)'))
             if m is not None and a == m: ctx.traces_validated += 1
     return bad, ok_mstd, ok_ms, ok_ss
 
